@@ -245,6 +245,8 @@ def run(ctx):
     for h_ in helpers_called:
         reach_ = [h_] + [tc.lookup(x.func.attr) for x in ast.walk(h_.node) if isinstance(x, ast.Call) and isinstance(x.func, ast.Attribute) and
                          isinstance(x.func.value, ast.Name) and x.func.value.id == tc.name and tc.lookup(x.func.attr) is not None]
+        reach_ += [h_.module.functions[x.func.id] for x in ast.walk(h_.node) if isinstance(x, ast.Call) and isinstance(x.func, ast.Name) and
+                   x.func.id in h_.module.functions]      # ... or a function of the module called by name
         if any(isinstance(k, ast.Constant) and k.value == 'operator' for f_ in reach_ for k in ast.walk(f_.node)):
             opf = h_
     # helpers of the matcher carry no memoisation: a cache hashes its arguments before the helper's own type guard runs
@@ -473,6 +475,8 @@ def operator_table(repo, tc, opf):
         if isinstance(n, ast.Call) and isinstance(n.func, ast.Attribute) and isinstance(n.func.value, ast.Name) and \
                 n.func.value.id == tc.name and tc.lookup(n.func.attr) is not None:
             cands.append(tc.lookup(n.func.attr))
+        if isinstance(n, ast.Call) and isinstance(n.func, ast.Name) and n.func.id in opf.module.functions:
+            cands.append(opf.module.functions[n.func.id])
     for f in cands:
         rec, flt = f.params[0], f.params[1]
         table = {}
